@@ -246,9 +246,56 @@ def execute(program, ctx, mode):
         return {idx_of[id(i)] for i in spec.flattened() if id(i) in idx_of}
 
     meta_impl = [x % nI for x in (W.get('meta_impl') or [])]
-    Meta = type('Meta', (type,), {'__module__': 'zisim.w'})
+    # one world in five: classes and instances that are false in a boolean context (metaclass __bool__, __len__ == 0) --
+    # legal, if unusual, and exactly what an `if cls:` / `if ob:` slip would trip over
+    falsy_world = h64(program.get('seed') or 0, 'falsy-world') % 5 == 0
+    BaseMeta = type
+    if falsy_world:
+        BaseMeta = type('FMeta', (type,), {'__module__': 'zisim.w', '__bool__': lambda cls: False, '__len__': lambda cls: 0})
+        ctx.probe('falsy-classes-and-instances')
+    Meta = type('Meta', (BaseMeta,), {'__module__': 'zisim.w'})
     if meta_impl:
         implementer(*[ifs[x] for x in meta_impl])(Meta)
+
+    # Re-entrant observer (want_super worlds, one in two): a dependent of a class specification that queries super proxies
+    # of that class's instances from inside its change notification.  When a specification notifies its dependents its own
+    # resolution order is already recomputed, so at the *last* notification within one declaration call every ancestor is
+    # final and the proxies must already show the final state (DESIGN.md 3/C19).
+    spies = []
+    spy_world = want_super and h64(program.get('seed') or 0, 'spy-world') % 2 == 0
+
+    class Spy:
+        def __init__(self, c):
+            self.c = c
+            self.seen = {}
+
+        def changed(self, originally_changed):
+            cls = classes[self.c]
+            for o, ob in enumerate(obs):
+                if ob is None or type(ob) is not cls:
+                    continue
+                mro = cls.__mro__
+                for kk in range(len(mro) - 1):
+                    self.seen[(o, kk)] = as_set(providedBy(super(mro[kk], ob)))
+            ctx.fault('cb-reenter-query-in-change-notification')
+
+    def check_spies():
+        for spy in spies:
+            seen, spy.seen = spy.seen, {}
+            for (o, kk), got in sorted(seen.items()):
+                ob = obs[o] if o < len(obs) else None
+                if ob is None:
+                    continue
+                mro = type(ob).__mro__
+                rest = [classes.index(x) for x in mro[kk + 1:] if x in classes]
+                slo, shi = set(), set()
+                for cc in rest:
+                    slo |= M.L(cc)
+                    shi |= M.U(cc)
+                ctx.probe('super-query-inside-notification')
+                if not (slo <= got <= shi):
+                    ctx.violation('C19', 'super-stale-in-notification', 'C19|providedBy(super)|stale-inside-change-notification|%s' % (
+                        'missing' if slo - got else 'extra'), {'ob': o, 'k': kk, 'lo': sorted(slo), 'got': sorted(got), 'hi': sorted(shi)})
 
     def mk_class(bases, meta=False, slots=False):
         # classes with a __provides__ slot stay leaves: the slot's descriptor would be inherited as the class
@@ -259,12 +306,18 @@ def execute(program, ctx, mode):
                 ns = {'__module__': 'zisim.w'}
                 if slots and not attempt:
                     ns['__slots__'] = ('__provides__', '__weakref__')       # instances without a __dict__
-                cls = (Meta if (meta and meta_impl) else type)('K%d' % len(classes), tuple(classes[b] for b in attempt) or (object,), ns)
+                if falsy_world:
+                    ns['__len__'] = lambda self: 0
+                cls = (Meta if (meta and meta_impl) else BaseMeta)('K%d' % len(classes), tuple(classes[b] for b in attempt) or (object,), ns)
                 break
             except TypeError:
                 continue
         classes.append(cls)
         c = M.new_class(attempt)
+        if spy_world:
+            spy = Spy(c)
+            spies.append(spy)
+            implementedBy(cls).subscribe(spy)
         M.classes[c]['slots'] = '__slots__' in ns
         M.classes[c]['meta'] = type(cls) is Meta        # (a metaclass is inherited from the bases: Python's rule, not the library's)
         if type(cls) is Meta:
@@ -651,6 +704,8 @@ def execute(program, ctx, mode):
                         ctx.log(step, 'q-directlyProvidedBy', o, names(directlyProvidedBy(obs[o])))
             else:
                 raise ValueError('unknown op %r' % (name,))
+            if spies:
+                check_spies()
             check(k)
         ctx.step = len(program['ops'])
         check(0, final=True)
